@@ -1,5 +1,5 @@
 From Coq Require Import List Arith Bool String.
-From Wire Require Import Sets Acyclic Solve Names Front Exec Model Emit Cli ModelThms.
+From Wire Require Import Sets Acyclic Solve Names Front Exec Model Emit Cli CopyAst ModelThms.
 Import ListNotations.
 
 (* The property theorems.  This file contains nothing but statements closed by [exact lemma] and the
@@ -218,3 +218,25 @@ Theorem C12_struct_provider_outputs : forall s p,
              (all_fields (sp_lits s) = true -> fs = star_fields (sp_fields s)).
 Proof. exact struct_provider_spec. Qed.
 Print Assumptions C12_struct_provider_outputs.
+
+(* ------------------------------------------------------------------ C13 *)
+(* processValue's whitelist walk accepts an expression iff evaluating it calls no function or method and
+   receives from no channel (and contains no node kind outside the list), for expressions of any size *)
+Theorem C13_whitelist_sound : forall e, value_ok e = true -> effect_free e.
+Proof. exact value_ok_effect_free. Qed.
+Print Assumptions C13_whitelist_sound.
+Theorem C13_whitelist_complete : forall e, effect_free e -> value_ok e = true.
+Proof. exact value_ok_complete. Qed.
+Print Assumptions C13_whitelist_complete.
+
+(* ------------------------------------------------------------------ C15 *)
+(* a copy driven by a table that covers every child field of every node kind is the identity, on every tree
+   (the table of the real copyAST is regenerated by reflection on every run and shown complete by the table
+   theorem copy_table_complete); a field missing from the table is lost on some tree *)
+Theorem C15_copy_identity : forall tbl t, covered tbl t -> copy tbl t = t.
+Proof. exact copy_id. Qed.
+Print Assumptions C15_copy_identity.
+Theorem C15_missing_field_is_lost : forall tbl k f, memb f (tbl k) = false ->
+  copy tbl (Node k [] [(f, [Node 0 [] []])]) <> Node k [] [(f, [Node 0 [] []])].
+Proof. exact copy_loses. Qed.
+Print Assumptions C15_missing_field_is_lost.
